@@ -117,7 +117,8 @@ fn run_campaign<C: Serialize>(ctx: &mut Ctx, sub: &'static str, camp: &Campaign,
             .arg(format!("-seed={seed}"))
             .arg(format!("-max_len={}", camp.max_len))
             .arg("-len_control=0")
-            .arg("-timeout=60")
+            .arg("-timeout=120")
+            .arg("-report_slow_units=60")
             .arg("-rss_limit_mb=4096")
             .arg("-print_final_stats=1")
             .arg(format!("-artifact_prefix={}/", artifacts.display()))
@@ -144,6 +145,7 @@ fn run_campaign<C: Serialize>(ctx: &mut Ctx, sub: &'static str, camp: &Campaign,
     let mut total_units = 0u64;
     let mut best_cov = (0u64, 0u64);
     let mut corpus_total = 0usize;
+    let mut dismissed: Vec<String> = vec![];
     for (w, wdir, ch) in children {
         // keep the watchdog quiet while the campaign runs
         let stop = std::sync::Arc::new(std::sync::atomic::AtomicBool::new(false));
@@ -181,11 +183,37 @@ fn run_campaign<C: Serialize>(ctx: &mut Ctx, sub: &'static str, camp: &Campaign,
             let _ = std::fs::create_dir_all(&keep);
             let kept = keep.join(format!("{}-{name}", camp.target));
             let _ = std::fs::copy(&a, &kept);
-            if name.starts_with("timeout-") || name.starts_with("oom-") || name.starts_with("slow-unit-") {
+            if name.starts_with("oom-") {
                 ctx.inconclusive.push(format!(
-                    "{sub}: libFuzzer reported {name} (wall-clock / memory signal, never a verdict); input kept at {}",
+                    "{sub}: libFuzzer reported {name} (memory signal, never a verdict); input kept at {}",
                     kept.display()
                 ));
+                continue;
+            }
+            if name.starts_with("timeout-") || name.starts_with("slow-unit-") {
+                // a wall-clock report: on a busy machine libFuzzer's timer fires for inputs that take
+                // milliseconds. Re-execute in-process: a violation is a violation; an input that now
+                // completes quickly was a load artefact (noted in the evidence, nothing else); one that
+                // is slow here as well stays inconclusive.
+                let case = wrap(bytes);
+                let mut obs = Obs::default();
+                let t0 = std::time::Instant::now();
+                let v = match crate::engine::guard(|| check(&case, &mut obs)) {
+                    Ok(v) => v,
+                    Err(p) => Verdict::Fail(format!("uncaught {p}")),
+                };
+                let took = t0.elapsed().as_secs_f64();
+                match v {
+                    Verdict::Pass | Verdict::Known(..) if took < 10.0 => {
+                        dismissed.push(format!("{name} ({took:.3} s in-process)"));
+                        let _ = std::fs::remove_file(&kept);
+                    }
+                    Verdict::Pass | Verdict::Known(..) => ctx.inconclusive.push(format!(
+                        "{sub}: libFuzzer reported {name} and the input takes {took:.1} s in-process (wall-clock signal, never a verdict); input kept at {}",
+                        kept.display()
+                    )),
+                    v => ctx.settle(sub, &case, v),
+                }
                 continue;
             }
             let case = wrap(bytes);
@@ -226,6 +254,7 @@ fn run_campaign<C: Serialize>(ctx: &mut Ctx, sub: &'static str, camp: &Campaign,
             "coverage_features": best_cov.1,
             "corpus_files_after": corpus_total,
             "max_len": camp.max_len,
+            "wall_clock_reports_dismissed_after_fast_in_process_re_execution": dismissed,
         }),
     );
     let _ = std::fs::remove_dir_all(&work);
